@@ -57,6 +57,9 @@ func genC01Case(t *rapid.T) C01Case {
 	spec := stdSpec()
 	spec.IdP.SignatureAlgorithm = rapid.SampledFrom([]string{world.AlgRSASHA256, world.AlgRSASHA256, world.AlgRSASHA1, "urn:example:unusable-algorithm"}).Draw(t, "sigalg")
 	spec.SPs[1].AuthnRequestsSigned = A // all three SPs accept unsigned requests here
+	// configuration fields that have nothing to say about who gets an assertion
+	spec.IdP.IDPInsecure = rapid.Bool().Draw(t, "idp-insecure-field")
+	spec.IdP.Insecure = rapid.IntRange(0, 3).Draw(t, "allow-insecure") == 0
 	big := stdUser(7)
 	big.UserID, big.LoginName = "uid-big", "loginbig@users.example"
 	big.Custom = append(big.Custom, world.CustomAttr{Name: "groups", NameFormat: "urn:oasis:names:tc:SAML:2.0:attrname-format:basic", Values: bigValues(400, "c01")})
